@@ -201,5 +201,26 @@ example : Sasl2Continue.WF ∧ Sasl2Continue.Canon
     [.record [.str [Char.ofNat 0, Char.ofNat 255, 'M']], .record [.list [.record [.str "a<b".toList]]], .record [.str []]] := by
   decide
 example : ¬ Sasl2Continue.Canon [.record [.str []], .record [.list []], .record [.str []]] := by decide
+/-- stanza error: condition `gone` (last-match child with a text payload) carrying a redirection URI made of markup
+characters, type, `by`, code and text all set -/
+example : StanzaError.WF ∧ StanzaError.Canon [.record [.str "a@b".toList, .opt (some 0), .opt (some 404),
+    .record [.opt (some 4), .str "xmpp:<&>\"".toList], .record [.str "gone <away>".toList]]] := by decide
+/-- …the URI is part of the value only for gone / redirect: with `bad-request` it is not canonical (the class never writes it) -/
+example : ¬ StanzaError.Canon [.record [.str [], .opt (some 0), .opt none,
+    .record [.opt (some 0), .str "xmpp:x".toList], .record [.str []]]] := by decide
+/-- …and without type and condition the object is "no error": `by` / code / text set is not canonical, all unset is -/
+example : ¬ StanzaError.Canon [.record [.str "a@b".toList, .opt none, .opt none, .record [.opt none, .str []], .record [.str []]]] := by
+  decide
+example : StanzaError.Canon [.record [.str [], .opt none, .opt none, .record [.opt none, .str []], .record [.str []]]] := by decide
+/-- roster item: the groups are a set — strictly increasing is canonical, anything else is not -/
+example : RosterItem.WF ∧ RosterItem.Canon [.str "a@b".toList, .str [], .opt (some 1), .str [], .flag true,
+    .list [.str [], .str "Friends".toList, .str "friends".toList], .record [.str "123".toList]] := by decide
+example : ¬ RosterItem.Canon [.str [], .str [], .opt none, .str [], .flag false,
+    .list [.str "b".toList, .str "a".toList], .absent] := by decide
+example : ¬ RosterItem.Canon [.str [], .str [], .opt none, .str [], .flag false,
+    .list [.str "a".toList, .str "a".toList], .absent] := by decide
+/-- MUC item: an enum looked up after lower-casing -/
+example : MucItem.WF ∧ MucItem.Canon [.opt (some 4), .str [], .str "nick".toList, .opt (some 3), .record [.str []], .record [.str []]] := by
+  decide
 
 end Qx.C01Codec
